@@ -100,6 +100,17 @@ def segIntersect (a b c d : Nat → α) : Option (Nat → α) :=
   let X := cross l1 l2
   if (!(decide (X 0 = 0 ∧ X 1 = 0 ∧ X 2 = 0))) && segContains a b l1 X && segContains c d l2 X then some X else none
 
+/-- `SegmentTensor.intersect(LineTensor)` in the plane: the meet of the supporting line with `l` if it is non-zero and the segment
+    contains it -/
+def segIntersectLine (a b l : Nat → α) : Option (Nat → α) :=
+  let l1 := cross a b
+  let X := cross l1 l
+  if (!(decide (X 0 = 0 ∧ X 1 = 0 ∧ X 2 = 0))) && segContains a b l1 X then some X else none
+
+/-- `PolygonTensor.intersect(LineTensor)` in the plane, before `distinct`: the edges' intersections with the line, in edge order -/
+def polyIntersectLine (vs : List (Nat → α)) (l : Nat → α) : List (Nat → α) :=
+  (polyEdges vs).filterMap fun e => segIntersectLine e.1 e.2 l
+
 end
 
 section
